@@ -1,7 +1,7 @@
 #!/bin/sh
 # run every registered quick (or $1) check on the current tree; one line per check
 tier=${1:-quick}
-cd /verif
+cd "$(dirname "$0")/.."
 for c in C01 C02 C03 C04 C05 C06 C07 C08 C09 C10 C11 C12 C13 C14 C15 C16 C17 C18 C19 C20; do
   s=$(date +%s)
   tools/vcheck $c --tier $tier > /tmp/runall.$c.out 2>&1
